@@ -8,6 +8,13 @@ ROOT = Path(__file__).resolve().parent.parent
 sys.path.insert(0, str(ROOT))
 
 CHECKS = {
+    "C02": dict(
+        level="model_checking",
+        technique="TLA+ specs LocateCart.tla (label / per-boundary-point merge / select vs declarative lifted torus components from Lattice.tla) + Overlap.tla, model-checked by TLC over every binary image of small lattices; spec->code replay; code->spec trace validation (TraceLocate.tla, TraceOverlap.tla)",
+        text="TLC enumerates every binary image (SUBSET Cells) of 1-D/2-D/3-D lattices for all listed periodicity masks and checks Correct (one cluster per torus component, volume = cell count, moment = moment of the lifted component modulo the period for non-winding components), Ordered, MaskIntact, Termination; the pre-repair merge design is kept as Variant=\"original\" and is refuted by TLC (F1). Every image is replayed through locate_droplets_in_mask on concrete anisotropic/offset CartesianGrids; candidates captured before overlap removal must match the clusters, and the overlap stage is judged by TLC (Separated/Dominated/Subsequence) on the exact rational projection of the candidates. Large random images (noise, blobs, rings, stripes; 1-D..3-D) are validated by TraceLocate.tla.",
+        note="Trusted: TLC; scipy.ndimage.label's raster numbering (affects order only); exact-rational projection; pde grid metric. Winding components: only volume/cells are judged (position unspecified by the property). Cylindrical clause: see evidence (LocateCyl) when built.",
+        ref="§3 C02",
+    ),
     "C06": dict(
         level="model_checking",
         technique="TLA+ spec Tracking.tla model-checked by TLC (exhaustive lattice histories) + spec->code replay + code->spec trace validation (TraceTracking.tla)",
